@@ -50,7 +50,7 @@ def run(rep):
                 "Verdict: textX equals Peg!Outcome (Skip / EffWs / SkipComments clauses; TLC checks WsInsertion on the "
                 "universes without modifiers). Non-trivial: accepted inputs.")
     rep.assumptions = ["Peg!WellFormed fragment", "a ws rule modifier is not used together with eolterm in one grammar"]
-    P.judge_universe(rep, PID, "mods", 1 if quick else 2)
+    P.judge_universe(rep, PID, "mods", 1 if quick else 2, maxlen=4 if quick else "")
     if not quick:
         P.judge_universe(rep, PID, "ops", 2)
     rep.exhaustive = True
